@@ -5,14 +5,14 @@ From Coq Require Import ZifyBool ZifyNat.
 Open Scope Z_scope.
 
 (** the invariant holds after every operation of a well-formed history, as long as no call diverged *)
-Lemma run_pfinal mx : forall ops x t tnt,
-  Jop mx tnt x t -> hist_okp x ops = true -> nodiv x ops = true ->
-  exists t' tnt', Jop mx tnt' (pfinal x ops) t'.
+Lemma run_pfinal mx kp : forall ops x t tnt,
+  Jop mx kp tnt x t -> hist_okp x ops = true -> nodiv x ops = true ->
+  exists t' tnt', Jop mx kp tnt' (pfinal x ops) t'.
 Proof.
   induction ops as [|o r IH]; intros x t tnt HJ Hok Hnd; cbn [pfinal]; [eauto|].
   cbn [hist_okp] in Hok. apply andb_true_iff in Hok as [Hok1 Hok2].
   unfold nodiv in Hnd. rewrite prun_cons in Hnd. cbn [forallb] in Hnd. apply andb_true_iff in Hnd as [Hd Hnd].
-  pose proof (op_step mx tnt x t o HJ Hok1) as Hstep. cbv zeta in Hstep.
+  pose proof (op_step mx kp tnt x t o HJ Hok1) as Hstep. cbv zeta in Hstep.
   apply negb_true_iff in Hd. rewrite Hd in Hstep. eapply IH; eassumption.
 Qed.
 
@@ -39,11 +39,11 @@ Theorem count_exact1_partial : forall clock cfg ops n, wf_pool1 clock cfg ops = 
   p_running (get_pool x 0) = live_workers x /\ 0 <= p_running (get_pool x 0) <= snd (fst cfg).
 Proof.
   intros clock cfg ops n Hwf Hnd. destruct (wf_split _ _ _ Hwf) as [Hc Hh]. cbv zeta.
-  destruct (run_pfinal (snd (fst cfg)) (firstn n ops) _ _ false (Jop_init clock cfg Hc) (hist_okp_firstn n _ _ Hh) (nodiv_firstn n _ _ Hnd))
+  destruct (run_pfinal (snd (fst cfg)) (snd cfg) (firstn n ops) _ _ false (Jop_init clock cfg Hc) (hist_okp_firstn n _ _ Hh) (nodiv_firstn n _ _ Hnd))
     as (t' & tnt' & [HJ _]).
-  pose proof (j_p _ _ _ _ _ _ _ HJ) as HP. split.
-  - rewrite (jp_run _ _ _ HP). reflexivity.
-  - pose proof (jp_le _ _ _ HP). rewrite (jp_run _ _ _ HP) in *. pose proof (nlive_nonneg (pw_workers (pfinal (pw0 clock [cfg]) (firstn n ops)))). lia.
+  pose proof (j_p _ _ _ _ _ _ _ _ HJ) as HP. split.
+  - rewrite (jp_run _ _ _ _ HP). reflexivity.
+  - pose proof (jp_le _ _ _ _ HP). rewrite (jp_run _ _ _ _ HP) in *. pose proof (nlive_nonneg (pw_workers (pfinal (pw0 clock [cfg]) (firstn n ops)))). lia.
 Qed.
 
 (** I3: a stored result is the task's own outcome ([body_outcome]: the first [IReturn v] gives [TOk v], the first
@@ -55,10 +55,10 @@ Theorem result_own1_partial : forall clock cfg ops n, wf_pool1 clock cfg ops = t
     r = body_outcome (nth i (pw_tbody x) []) \/ r = TErr TMCancelled \/ (r = TErr TMStopped /\ p_state (get_pool x 0) = PStopped).
 Proof.
   intros clock cfg ops n Hwf Hnd. destruct (wf_split _ _ _ Hwf) as [Hc Hh]. cbv zeta.
-  destruct (run_pfinal (snd (fst cfg)) (firstn n ops) _ _ false (Jop_init clock cfg Hc) (hist_okp_firstn n _ _ Hh) (nodiv_firstn n _ _ Hnd))
+  destruct (run_pfinal (snd (fst cfg)) (snd cfg) (firstn n ops) _ _ false (Jop_init clock cfg Hc) (hist_okp_firstn n _ _ Hh) (nodiv_firstn n _ _ Hnd))
     as (t' & tnt' & [HJ _]).
-  intros i r Hin. destruct (jr_tg _ _ _ _ _ _ (j_r _ _ _ _ _ _ _ HJ) _ _ Hin) as [(_ & [H|(H & _)])|(H1 & H2 & _)].
-  - left. apply (jt_fin _ _ _ _ _ _ _ _ (j_t _ _ _ _ _ _ _ HJ) _ _ H).
+  intros i r Hin. destruct (jr_tg _ _ _ _ _ _ (j_r _ _ _ _ _ _ _ _ HJ) _ _ Hin) as [(_ & [H|(H & _)])|(H1 & H2 & _)].
+  - left. apply (jt_fin _ _ _ _ _ _ _ _ (j_t _ _ _ _ _ _ _ _ HJ) _ _ H).
   - right. left. exact H.
   - right. right. auto.
 Qed.
@@ -70,9 +70,9 @@ Theorem held_suffix1_partial : forall clock cfg ops n, wf_pool1 clock cfg ops = 
     body_outcome rest = body_outcome (nth i (pw_tbody x) []).
 Proof.
   intros clock cfg ops n Hwf Hnd. destruct (wf_split _ _ _ Hwf) as [Hc Hh]. cbv zeta.
-  destruct (run_pfinal (snd (fst cfg)) (firstn n ops) _ _ false (Jop_init clock cfg Hc) (hist_okp_firstn n _ _ Hh) (nodiv_firstn n _ _ Hnd))
+  destruct (run_pfinal (snd (fst cfg)) (snd cfg) (firstn n ops) _ _ false (Jop_init clock cfg Hc) (hist_okp_firstn n _ _ Hh) (nodiv_firstn n _ _ Hnd))
     as (t' & tnt' & [HJ _]).
-  intros w k i rest Hk Ht. apply (jt_suf _ _ _ _ _ _ _ _ (j_t _ _ _ _ _ _ _ HJ) _ _ _ _ Hk Ht).
+  intros w k i rest Hk Ht. apply (jt_suf _ _ _ _ _ _ _ _ (j_t _ _ _ _ _ _ _ _ HJ) _ _ _ _ Hk Ht).
 Qed.
 
 Print Assumptions count_exact1_partial.
